@@ -1637,6 +1637,8 @@ impl ObjectWrite for Action {
         match self {
             Action::Goto(dest) => {
                 let mut dict = Dictionary::new();
+                // the action type: without it the dictionary cannot be read as an action again
+                dict.insert("S", Name::from("GoTo"));
                 dict.insert("D", dest.to_primitive(update)?);
                 Ok(Primitive::Dictionary(dict))
             }
